@@ -143,6 +143,22 @@ def extra_vectors(name, rng, n=6):
         for sf, ff in ((0.00001, 1.0), (0.0005, 0.25), (1e-7, 0.999999), (rng.random() / 10 ** rng.randint(3, 9), rng.random())):
             out.append(('{"report_to": "default", "max_age": 2592000, "success_fraction": %s, "failure_fraction": %s}' % (format(sf, '.12f').rstrip('0'), repr(ff))).encode('ascii'))
         return out
+    if short == 'MySQLHandshakeV10':
+        # every bit of the two capability halves and of the status word, one at a time, on top of the repository's greetings (a
+        # real server sets most of them; bit 15 of the lower half is CLIENT_SECURE_CONNECTION)
+        from harness import sweep as _sweep
+        out = []
+        for v in [v for c, l in _sweep.library_vectors().items() if _sweep.qualname(c) == name for v in l][:2]:
+            try:
+                off = v.index(b'\x00', 1) + 1 + 4 + 8 + 1      # protocol, version string, connection id, auth data part 1, filler
+            except ValueError:
+                continue
+            for field in (off, off + 3, off + 5):             # capability flags (lower), status flags, capability flags (upper)
+                for bit in range(16):
+                    i = field + bit // 8
+                    if i < len(v):
+                        out.append(v[:i] + bytes([v[i] | (1 << (bit % 8))]) + v[i + 1:])
+        return out
     if short == 'DnsRecordTxt':
         # TXT data beyond 255 octets: several character-strings (DKIM keys, long SPF policies)
         def strings(*ls):
